@@ -65,8 +65,11 @@ class LoopSpec(object):
     (havocked) frame; i is the number of completed iterations."""
 
     def __init__(self, invariant=None, modifies_fields=(), name=None,
-                 extra_havoc=(), lemmas=None, keep=(), probes=None):
+                 extra_havoc=(), lemmas=None, keep=(), probes=None,
+                 modifies_db=(), on_entry=None):
         self.probes = probes
+        self.modifies_db = tuple(modifies_db)
+        self.on_entry = on_entry
         self.invariant = invariant
         self.modifies_fields = tuple(modifies_fields)
         self.name = name
@@ -96,6 +99,7 @@ class Interp(object):
         self.written_fields = set()
         self.ghost = {}         # free-form ghost state for stubs
         self.qguards = []
+        self.keepnull = set()
         self.callstack = []
         self.db = None
         self.txn_stack = []
@@ -230,6 +234,11 @@ class Interp(object):
             self.meta.pop((obj.ref.as_long(), field), None)
         key = self._arr(obj.cls, field, spec)
         nf = none_flag(value)
+        if spec.nullable and key in getattr(self, 'keepnull', ()):
+            # loop frame promised that None-ness of this field is preserved
+            self.ex.oblige('frame.keepnull.%s.%s' % key,
+                           z3.Select(self.heap_none[key], obj.ref) ==
+                           ops.z3bool(nf), 'A')
         if spec.nullable:
             self.heap_none[key] = z3.Store(self.heap_none[key], obj.ref,
                                            ops.z3bool(nf))
@@ -1612,6 +1621,8 @@ class Interp(object):
             if isinstance(cur, (VDict, VSet, VList)) and not cur.items:
                 holder.locals[nm] = self.typed_empty(
                     hints[(frame.qualname, nm)], nm)
+        if spec.on_entry is not None:
+            spec.on_entry(self, frame, seq)
         # initiation
         if spec.lemmas is not None:
             for f in spec.lemmas(self, frame, z3.IntVal(0), seq):
@@ -1635,8 +1646,16 @@ class Interp(object):
                 # it makes the obligation undecided, never wrong
                 holder.locals[nm] = Opaque('havocked local %s' % nm)
             havocked.add(nm)
-        for (cname, field) in spec.modifies_fields:
-            self.havoc_field(cname, field)
+        keepnull = set()
+        for mf in spec.modifies_fields:
+            self.havoc_field(mf[0], mf[1], keep_null=len(mf) > 2)
+            if len(mf) > 2:
+                keepnull.add((mf[0], mf[1]))
+        self.keepnull = keepnull
+        if spec.modifies_db:
+            self.db.havoc(spec.modifies_db)
+        db_writes0 = len(self.db.writes) if self.db is not None else 0
+        self._loop_db_mark = (db_writes0, spec.modifies_db)
         mode = self.ex.choose(2, tag=name)
         i = z3.Int(self.ex.fresh_name('i.' + name.split('.')[-1]))
         if mode == 0:
@@ -1679,7 +1698,13 @@ class Interp(object):
         raise PathEnd()
 
     def _check_frame(self, spec, name, pre_written):
-        declared = set(spec.modifies_fields)
+        if self.db is not None:
+            mark, allowed = self._loop_db_mark
+            for w in self.db.writes[mark:]:
+                if w[0] not in allowed:
+                    raise Undecided('loop %s writes table %s not in its frame'
+                                    % (name, w[0]))
+        declared = set((m[0], m[1]) for m in spec.modifies_fields)
         extra = self.written_fields - declared
         # fields of objects allocated inside the body are fresh: ignore
         extra = set(e for e in extra if e not in self._fresh_only_fields)
@@ -1769,13 +1794,13 @@ class Interp(object):
             return SList(z3.IntVal(0), arr, hint[1], name)
         self.undecided('type hint %r' % (hint,))
 
-    def havoc_field(self, cname, field):
+    def havoc_field(self, cname, field, keep_null=False):
         key = (cname, field)
         if key in self.heap:
             old = self.heap[key]
             self.heap[key] = z3.Const(self.ex.fresh_name('heap.%s.%s' % key),
                                       old.sort())
-        if key in self.heap_none:
+        if key in self.heap_none and not keep_null:
             old = self.heap_none[key]
             self.heap_none[key] = z3.Const(
                 self.ex.fresh_name('heapnone.%s.%s' % key), old.sort())
